@@ -114,40 +114,53 @@ def run_puppet(cfg, script, drain=False):
                     pu.tx()
                 if pu.outstanding:
                     pu.ack([max(pu.outstanding)])
-            elif k in ("pstream", "preset", "pmulti"):
-                # one packet with one or several STREAM / RESET_STREAM frames; the oracle
+            elif k in ("pstream", "preset", "psdb", "pss", "pmd", "pmulti"):
+                # one packet with one or several frames that name a stream id; the oracle
                 # classifies them in order, the first violating frame decides the expectation
                 ro = pu.recv_oracle
                 payload = b""
                 exp = set()
                 unspecified = False
                 for sub in (act[1] if k == "pmulti" else [act]):
+                    sid = sub[1]
                     if sub[0] == "pstream":
                         _, sid, off, n, fin = sub
                         payload += F.enc_stream(sid, off, bytes(n), fin)
+                    elif sub[0] == "preset":
+                        payload += F.enc_reset_stream(sid, 3, sub[2])
+                    elif sub[0] == "psdb":
+                        payload += b"\x15" + F.put_varint(sid) + F.put_varint(sub[2] if len(sub) > 2 else 0)
+                    elif sub[0] == "pss":
+                        payload += F.enc_stop_sending(sid, 4)
                     else:
-                        _, sid, fs = sub
-                        payload += F.enc_reset_stream(sid, 3, fs)
+                        payload += F.enc_max_stream_data(sid, sub[2])
                     if exp or unspecified:
                         continue
-                    if sid in e._streams_finished:
-                        # state of the stream was discarded: frames are ignored (documented assumption)
-                        if k != "pmulti":
-                            unspecified = True
-                        continue
+                    # The oracle decides by itself whether the receive half of the stream is complete
+                    # (FIN reached or RESET_STREAM accepted): only then may the endpoint have discarded the
+                    # stream and ignore the frame.  Until then every limit stays in force.
+                    done = ro.recv_done(sid)
+                    e_opened = sid in written
                     if sub[0] == "pstream":
-                        exp = ro.expect("stream", sid, off, n, fin)
+                        x = ro.expect("stream", sid, off, n, fin, e_opened=e_opened)
+                    elif sub[0] == "preset":
+                        x = ro.expect("reset", sid, final_size=sub[2], e_opened=e_opened)
                     else:
-                        exp = ro.expect("reset", sid, final_size=fs)
-                    if ro.local(sid) and not (sid & 2) and sid not in written:
-                        exp = {5} | (exp & {7})  # a stream only this endpoint may open, and it has not (RFC 9000 19.8: STREAM_STATE_ERROR)
+                        x = ro.expect_id({"psdb": "sdb", "pss": "stop", "pmd": "msd"}[sub[0]], sid, e_opened=e_opened)
+                    if done:
+                        if x:
+                            unspecified = True     # ignored (stream discarded) or judged: both are fine
+                        continue
+                    exp = x
+                    if sub[0] == "pss" and not x and sid in written:
+                        written[sid][2] = True     # STOP_SENDING resets the sending part
                 pu.inject(payload)
                 got = pu.closed
                 accepted.append((act, sorted(exp), got))
                 if unspecified:
                     pass
                 elif exp and got not in exp:
-                    recv_problems.append(f"{act}: beyond advertised limits (matching codes {sorted(exp)}) but connection close code is {got}")
+                    recv_problems.append(f"{act}: beyond advertised limits / not allowed (matching codes {sorted(exp)}) but connection close code is {got}")
                 elif not exp and got is not None:
                     recv_problems.append(f"{act}: within every advertised limit but connection closed with {got}")
             elif k == "pstop":
